@@ -52,6 +52,7 @@ package dns
 //@ spec geninv(step int, start int, end int, si int, slen int, eof bool, cur int) bool = step > 0 && 0 <= start && start <= end && 0 <= si && si <= slen && (!eof ==> start <= cur && cur <= end)
 //@ func (*generateReader).ReadByte [C06 C07]
 //@   opt wrap-int
+//@   modifies A.uint8.v H.bytes.Buffer.buf.cap H.bytes.Buffer.buf.len H.bytes.Buffer.buf.off H.bytes.Buffer.buf.ref H.bytes.Buffer.lastRead.v H.bytes.Buffer.off.v H.generateReader.cur.v H.generateReader.eof.v H.generateReader.escape.v H.generateReader.si.v
 //@   requires r != nil
 //@   requires inv: geninv(r.step, r.start, r.end, r.si, len(r.s), r.eof, r.cur) && r.lex != nil
 //@   ensures inv: geninv(r.step, r.start, r.end, r.si, len(r.s), r.eof, r.cur)
